@@ -138,7 +138,23 @@ var keyBearing = map[string]bool{
 	bscript.ScriptTypeMultiSig: true, bscript.ScriptTypePubKeyHashInscription: true,
 }
 
+// c14Check runs the queries twice, each time on a buffer that held ANOTHER script of the same length
+// a moment before (its first byte two higher / two lower) and was inspected in that state: an
+// answer must be about the bytes the script has now (a reused receive buffer, an in-place edit).
 func c14Check(c c14Case) (fs []rep.Finding) {
+	seen := map[string]bool{}
+	for _, delta := range []int{2, -2} {
+		for _, f := range c14CheckPrimed(c, delta) {
+			if !seen[f.Key] {
+				seen[f.Key] = true
+				fs = append(fs, f)
+			}
+		}
+	}
+	return fs
+}
+
+func c14CheckPrimed(c c14Case, delta int) (fs []rep.Finding) {
 	// the queries run on a private copy (with spare capacity behind it): a query that writes
 	// into the script must not change the case itself, or the re-execution would judge another script
 	raw := append(make([]byte, 0, len(c.Script)+8), c.Script...)
@@ -150,6 +166,17 @@ func c14Check(c c14Case) (fs []rep.Finding) {
 			f.Key = "panic|" + name + "|" + f.Key[len("panic|"):]
 			fs = append(fs, *f)
 		}
+	}
+	if len(raw) > 0 {
+		raw[0] = byte(int(raw[0]) + delta)
+		_ = rep.Guard(func() {
+			_, _, _, _ = s.ScriptType(), s.IsP2PK(), s.IsMultiSigOut(), s.IsP2PKHInscription()
+			_, _ = s.ParseInscription()
+			_, _ = s.ToASM()
+			_, _ = s.Addresses()
+			_, _ = s.PublicKeyHash()
+		})
+		copy(raw, keep)
 	}
 	var isP2PKH, isData, isP2PK, isMS, isInsc bool
 	q("ScriptType", func() { typ = s.ScriptType() })
@@ -306,7 +333,7 @@ func c14Templates() map[string][]byte {
 
 func init() {
 	p := register(&Prop{ID: "C14", Level: "exploration",
-		Rule: "exhaustive: every byte string of length<=2 (quick) / <=3 (thorough) and every string of length<=4 (quick) / <=5 (thorough) over a 24/40-symbol opcode+push alphabet; every standard template with every byte replaced by every value, every push replaced by 4c00/4d0000/4e00000000/OP_0/truncated push, every part removed, every token and every pair of tokens re-encoded (push through PUSHDATA1/2/4, one-byte opcode as a one-byte push); plus every bare m-of-n multisig with 1<=m<=n<=16 and its off-by-one neighbours; each through all inspection queries (and NodeJSON marshalling for templates and short strings, whose reported type, assembly and hex must be the script's own). distinct_nontrivial = distinct (ScriptType, predicate vector, decodable) classes x script length observed"})
+		Rule: "exhaustive: every byte string of length<=2 (quick) / <=3 (thorough) and every string of length<=4 (quick) / <=5 (thorough) over a 24/40-symbol opcode+push alphabet; every standard template with every byte replaced by every value, every push replaced by 4c00/4d0000/4e00000000/OP_0/truncated push, every part removed, every token and every pair of tokens re-encoded (push through PUSHDATA1/2/4, one-byte opcode as a one-byte push); plus every bare m-of-n multisig with 1<=m<=n<=16 and its off-by-one neighbours; each through all inspection queries, twice, on a buffer that was inspected a moment before while it held another script of the same length (and NodeJSON marshalling for templates and short strings, whose reported type, assembly and hex must be the script's own). distinct_nontrivial = distinct (ScriptType, predicate vector, decodable) classes x script length observed"})
 	sp := NewSpace(p, "bytes", c14Check)
 	p.Run = func(r *rep.Run, thorough bool) {
 		classify := func(c c14Case) []rep.Finding {
